@@ -89,8 +89,12 @@ fn update_oracle_msgs(
     env: &Env,
     config: &Config,
 ) -> Result<Vec<CosmosMsg>, ContractError> {
-    let (redemption_rate, purchase_rate) = get_rates(&deps);
     let mut messages: Vec<CosmosMsg> = Vec::new();
+    // The oracle is optional: without one there is nothing to post.
+    let Some(oracle_address) = config.protocol_chain_config.oracle_address.clone() else {
+        return Ok(messages);
+    };
+    let (redemption_rate, purchase_rate) = get_rates(&deps);
     // Post rates to Milkyway Oracle contract
     let post_rates_msg = Oracle::PostRates {
         purchase_rate: purchase_rate.to_string(),
@@ -102,12 +106,7 @@ fn update_oracle_msgs(
     messages.push(
         MsgExecuteContract {
             sender: env.contract.address.to_string(),
-            contract: config
-                .protocol_chain_config
-                .oracle_address
-                .clone()
-                .unwrap()
-                .to_string(),
+            contract: oracle_address.to_string(),
             msg: post_rate_msg_json.as_bytes().to_vec(),
             funds: vec![],
         }
